@@ -473,8 +473,15 @@ func (b *ASTBuilder) buildWithStatement(tsNode *sitter.Node) *Node {
 	for i := 0; i < childCount; i++ {
 		child := tsNode.Child(i)
 		if child != nil && child.Type() == "with_clause" {
-			if withItem := b.buildWithItem(child); withItem != nil {
-				node.AddChild(withItem)
+			// A with_clause holds one with_item per context manager
+			itemCount := int(child.ChildCount())
+			for j := 0; j < itemCount; j++ {
+				item := child.Child(j)
+				if item != nil && item.Type() == "with_item" {
+					if withItem := b.buildWithItem(item); withItem != nil {
+						node.AddChild(withItem)
+					}
+				}
 			}
 		}
 	}
@@ -1559,17 +1566,18 @@ func (b *ASTBuilder) buildWithItem(tsNode *sitter.Node) *Node {
 	node := NewNode(NodeWithItem)
 	node.Location = b.getLocation(tsNode)
 
-	if item := b.getChildByFieldName(tsNode, "item"); item != nil {
-		node.Value = b.buildNode(item)
-	}
-
-	childCount := int(tsNode.ChildCount())
-	for i := 0; i < childCount; i++ {
-		child := tsNode.Child(i)
-		if child != nil && child.Type() == "as_pattern" {
-			if alias := b.getChildByFieldName(child, "alias"); alias != nil {
+	// The grammar stores the context expression in the "value" field; with "as" it is an as_pattern
+	// whose first child is the expression and whose "alias" field is the target
+	if item := b.getChildByFieldName(tsNode, "value"); item != nil {
+		if item.Type() == "as_pattern" {
+			if item.NamedChildCount() > 0 {
+				node.Value = b.buildNode(item.NamedChild(0))
+			}
+			if alias := b.getChildByFieldName(item, "alias"); alias != nil {
 				node.Name = b.getNodeText(alias)
 			}
+		} else {
+			node.Value = b.buildNode(item)
 		}
 	}
 
